@@ -77,16 +77,27 @@ def guards_of(fn, target):
                     extra = [(st, 'in-loop')]
                 if _has(blk, target):
                     return search(blk, acc + extra)
-            # sibling passed: record early-exit guards
-            if isinstance(st, ast.If):
-                if always_exits(st.body) and not (st.orelse and always_exits(st.orelse)):
-                    acc.append((st.test, False))
-                elif st.orelse and always_exits(st.orelse):
-                    acc.append((st.test, True))
+            # sibling passed: record what is known once control falls through it
+            acc.extend(_fallthrough([st]))
         return False
 
     search(fn.body, [])
     return found[0] if found else None
+
+
+def _fallthrough(stmts):
+    """Conditions known to hold once control has fallen through the statement list (early-exit arms exclude their tests;
+    'if A: exit / elif B: exit' excludes both)."""
+    out = []
+    for st in stmts:
+        if isinstance(st, ast.If):
+            if always_exits(st.body) and not (st.orelse and always_exits(st.orelse)):
+                out.append((st.test, False))
+                out.extend(_fallthrough(st.orelse))
+            elif st.orelse and always_exits(st.orelse):
+                out.append((st.test, True))
+                out.extend(_fallthrough(st.body))
+    return out
 
 
 def _has(stmts, target):
@@ -222,4 +233,29 @@ def stmts_before(fn, node):
                 out.append(st)
         return False
     walk(fn.body)
+    return out
+
+
+def enclosing_conditions(fn, node):
+    """Tests of the if/while/for/except blocks that structurally enclose `node` in fn (early-exit validation that merely
+    precedes the node is not included).  Empty list: the node runs on every normal pass through fn."""
+    out = []
+
+    def search(stmts, acc):
+        for st in stmts:
+            if st is node or (_contains_expr(st, node) and not _in_subblock(st, node)):
+                out.extend(acc)
+                return True
+            for fname, blk in _blocks(st):
+                if _has(blk, node):
+                    extra = []
+                    if isinstance(st, (ast.If, ast.While)):
+                        extra = [(st.test, fname == 'body')]
+                    elif isinstance(st, ast.For):
+                        extra = [(st.iter, 'in-loop')] if fname == 'body' else []
+                    elif isinstance(st, ast.Try) and fname == 'handler':
+                        extra = [(st, 'in-handler')]
+                    return search(blk, acc + extra)
+        return False
+    search(fn.body, [])
     return out
